@@ -6,6 +6,7 @@ CONSTANTS
   Kinds = {"if", "while", "try", "withsupp"}
   GenVars = {"x"}
   SimpleKinds = {"assign", "use", "defg", "defn", "callg", "return"}
+  Shape = "any"
 INVARIANT InvC09
 INVARIANT EmitDone
 CHECK_DEADLOCK FALSE
